@@ -123,14 +123,19 @@ def run_walks(n, depth, family="data", groups=None, auth=(False,), msgids=(1, 2)
 
 def shape(d):
     """coarse shape of a schedule: event types with the parameters that select code paths"""
-    out = []
+    out, seen = [], set()
     for e in d["events"]:
         if e["t"] == "C":
             p = e["p"]
-            out.append((p["t"], p["rc"], p["tit"], p["qos"] == 3, p["dur"] > 0, p["will"], p["plainok"], p["empty"], p["wild"]))
+            name = p["topic"] or p["sname"]
+            out.append((p["t"], p["rc"], p["tit"], p["qos"] == 3, p["dur"] > 0, p["will"], p["plainok"], p["empty"], p["wild"],
+                        bool(name) and name in seen, p["pass"] == "" and p["plainok"]))
+            seen.add(name)
         elif e["t"] == "B":
             m = e["m"]
-            out.append(("b" + m["t"], m["rc"], m["qos"], tuple(m["codes"]), m["short"]))
+            # does the topic repeat an earlier one of this schedule? (same-name sequences are the interesting ones)
+            out.append(("b" + m["t"], m["rc"], m["qos"], tuple(m["codes"]), m["short"], bool(m["topic"]) and m["topic"] in seen))
+            seen.add(m["topic"])
         else:
             out.append((e["t"],))
     return tuple(out)
